@@ -502,7 +502,13 @@ func (c *FnCtx) checkGuardedWrite(st *State, a *Addr, pos token.Pos) {
 		}
 		for _, g := range li.Guards {
 			if strings.HasPrefix(g, "contents ") && strings.TrimSpace(strings.TrimPrefix(g, "contents ")) == root {
-				c.addOblig(st, "lockdiscipline:write-to-immutable:"+root, "lockdiscipline", "false", "field "+root+" is declared immutable after construction (guards contents)", pos)
+				// construction = the function that allocated the object: a write to an object
+				// that did not exist when the function was entered is still part of it
+				goal := "false"
+				if st.oldAlloc != "" && len(a.Idx) > 0 {
+					goal = "(not (select " + st.oldAlloc + " " + a.Idx[0] + "))"
+				}
+				c.addOblig(st, "lockdiscipline:write-to-immutable:"+root, "lockdiscipline", goal, "field "+root+" is declared immutable after construction (guards contents)", pos)
 			}
 			if g == root {
 				mkey := a.Key + "." + li.Mutex + "@" + a.Idx[0]
